@@ -46,9 +46,15 @@ def alphabet(dt, scheme):
     """a cyclic list of python values for cells of dtype `dt`.
     schemes: 'distinct' (pairwise distinct, small, no zero/one), 'mixed' (distinct values incl. the dtype extremes,
     zero, negatives), 'dups' (a 3-letter alphabet with many repeats; the extremum is repeated),
-    'zeros' (zeros and non-zeros mixed), 'desc' (distinct, descending)"""
+    'zeros' (zeros and non-zeros mixed), 'desc' (distinct, descending), 'extreme' (like 'mixed' but for floats the
+    finite extremes and magnitudes around 2**mantissa instead of inf)"""
     d = np.dtype(dt)
     lo, hi = limits(dt)
+    if scheme == "extreme":
+        if d.kind == "f":
+            big = float(2 ** (np.finfo(d).nmant + 1))          # 2**53 / 2**24: the next integer is not representable
+            return [1.5, hi, -2.0, big, 1.0, 1.0, lo, 0.25, big, -1.0, 3.0, hi, hi, 2.0, -big, 5.0, lo, lo, 7.0, 0.5]
+        scheme = "mixed"
     if d.kind == "b":
         if scheme == "zeros":
             return [bool(b) for b in _BITS[5:] + _BITS[:5]]
@@ -163,3 +169,63 @@ def exc_sig(e):
 def short(x, n=160):
     s = repr(x)
     return s if len(s) <= n else s[:n] + "..."
+
+
+# ---------------------------------------------------------------------------------------------
+# signatures: which input features does a failure depend on?
+
+class Unsupported(Exception):
+    """numpy itself refuses the (probe) input: the property says nothing"""
+
+
+def nonempty_variant(lengths):
+    v = [l for l in lengths if l > 0]
+    return v if v else [2, 1]
+
+
+def rows_class(lengths):
+    c = empty_class(lengths)
+    return None if c == "no-empty-row" else c
+
+
+def refine(case, verdict, inner, axes):
+    """verdict = {"msg", "what"} from inner(case). For every axis (label, key, probes, classify) the same check is
+    re-run with case[key] replaced by each probe value. `label=classify(case[key])` is appended to the signature if
+    some probe passes (the failure depends on the feature), or if no probe fails in the same way while some probe
+    fails differently (another defect interferes: keep the information), or if the axis has no probes at all (a
+    static label). It is left out if every applicable probe fails with the same `what`, or if numpy itself refuses
+    all probes. classify(...) is None => feature absent, nothing to
+    blame. Deterministic: depends only on the case and the library."""
+    parts = [verdict["what"]]
+    for label, key, probes, classify in axes:
+        cur = case.get(key)
+        cl = classify(cur)
+        if cl is None:
+            continue
+        passed = failed_same = other = 0
+        plist = list(probes(case) if callable(probes) else probes)
+        for p in plist:
+            if p == cur:
+                continue
+            c2 = dict(case)
+            if isinstance(p, dict) and "__update__" in p:
+                c2.update(p["__update__"])          # a probe that has to change several fields consistently
+            else:
+                c2[key] = p
+            try:
+                v = inner(c2)
+            except Unsupported:
+                continue
+            if v is None:
+                passed += 1
+            elif v["what"] == verdict["what"]:
+                failed_same += 1
+            else:
+                other += 1
+        if passed or (not failed_same and (other or not plist)):
+            parts.append(f"{label}={cl}")
+    return {"msg": verdict["msg"], "sig": ":".join(parts)}
+
+
+def vals_class(v):
+    return None if v == "distinct" else "special"
